@@ -63,15 +63,18 @@ CLAIMED["C17"] = dict(
 
 CLAIMED["C04"] = dict(
     engine="lean+corr_trie",
-    technique="Lean 4 model of the double-array trie with the xcheck choice as an explicit oracle; theorems on the model "
-              "(rejection, round trip; exact-set theorem in progress) + two-pass correspondence replaying the implementation's "
-              "own xcheck choices and comparing complete base/check/free states",
-    text="The model reproduces the implementation's exact array state after every operation of random histories with "
-         "relocations, clone/postcard round trips and rejected keys; the exact-set oracle and the structural invariant are "
-         "evaluated on the implementation; C04_reject/C04_roundtrip are proved, the full C04_statement is stated in Props/C04.lean.",
-    note="PARTIAL so far: C04_statement (exact set for every history and oracle) is stated but its proof (invariant + "
-         "relocation lemma) is not finished; relocating histories are covered at correspondence strength. serde/Clone modelled "
-         "as identity; find_labels_of order canonicalised. Axioms: propext, Classical.choice, Quot.sound.",
+    technique="Lean 4 model of the double-array trie with the xcheck choice as an explicit oracle; kernel-checked theorem C04 "
+              "(exact set of keys for every alphabet, every history of insertions, round trips and rejected keys, and every "
+              "base the xcheck calls may return) by a ghost path map and an invariant preserved by record_transition_at, every "
+              "iteration of rebase and insert + two-pass correspondence replaying the implementation's own xcheck choices and "
+              "comparing complete base/check/free states",
+    text="C04 (= C04_statement) is proved on the model for unbounded histories; the model reproduces the implementation's exact "
+         "array state after every operation of random histories with relocations, clone/postcard round trips and rejected "
+         "keys; the exact-set oracle and the structural invariant are also evaluated on the implementation.",
+    note="The theorem quantifies over histories that run without a model panic (`run … = some t`); absence of panics is observed "
+         "by the correspondence run, the rebase self-parent assertion is proved unreachable (Inv.not_self_parent). serde/Clone "
+         "modelled as identity; find_labels_of order canonicalised (ascending labels); re-parenting of grandchildren written as a "
+         "map over all slots. Axioms: propext, Classical.choice, Quot.sound.",
     design="5/C04")
 
 KKC_NOTE = ("Tries abstracted as key sets (C04); dictionary well-formedness (word stored under its own reading) assumed; "
